@@ -30,6 +30,11 @@ class CodemodCollection:
     codemods: list
 
 
+def _wildcard_pattern(pattern: str) -> re.Pattern:
+    """`*` matches any text; every other character is literal; the whole id must match"""
+    return re.compile(".*".join(re.escape(part) for part in pattern.split("*")))
+
+
 class CodemodRegistry:
     _codemods_by_id: dict[str, BaseCodemod]
     _default_include_paths: set[str]
@@ -80,7 +85,7 @@ class CodemodRegistry:
         if codemod_exclude and not codemod_include:
             base_codemods = {}
             patterns = [
-                re.compile(exclude.replace("*", ".*"))
+                _wildcard_pattern(exclude)
                 for exclude in codemod_exclude
                 if "*" in exclude
             ]
@@ -88,7 +93,7 @@ class CodemodRegistry:
 
             for codemod in self.codemods:
                 if codemod.id in names or any(
-                    pat.match(codemod.id) for pat in patterns
+                    pat.fullmatch(codemod.id) for pat in patterns
                 ):
                     continue
 
@@ -101,8 +106,10 @@ class CodemodRegistry:
         matched_codemods = []
         for name in codemod_include:
             if "*" in name:
-                pat = re.compile(name.replace("*", ".*"))
-                pattern_matches = [code for code in self.codemods if pat.match(code.id)]
+                pat = _wildcard_pattern(name)
+                pattern_matches = [
+                    code for code in self.codemods if pat.fullmatch(code.id)
+                ]
                 matched_codemods.extend(pattern_matches)
                 if not pattern_matches:
                     logger.warning(
